@@ -85,9 +85,12 @@ class DecoratedFunction:
 
     @property
     def _decorator_lines(self) -> str:
-        """ The source text in front of the function definition: decorators are looked for there, not in the body. """
+        """
+            The source text in front of the function definition, without comments:
+            decorators are looked for there, not in the body and not in what a comment mentions.
+        """
 
-        return self.source.split('def')[0]
+        return '\n'.join(line.split('#')[0] for line in self.source.split('def')[0].splitlines())
 
     @property
     def is_static_method(self) -> bool:
@@ -129,7 +132,7 @@ class DecoratedFunction:
 
     @property
     def num_of_decorators(self) -> int:
-        return len(re.findall('@', self.source.split('def')[0]))
+        return len(re.findall('@', self._decorator_lines))
 
     @property
     def is_pedantic(self) -> bool:
